@@ -32,6 +32,10 @@ var perCallTypes = map[string]bool{
 	"Attributes": true, "unclosedCounter": true,
 }
 
+// methods of sync / sync/atomic values that change them
+var mutatingMethods = map[string]bool{"Store": true, "Swap": true, "CompareAndSwap": true, "LoadOrStore": true, "LoadAndDelete": true,
+	"Delete": true, "Add": true, "Put": true, "Lock": true, "Unlock": true, "RLock": true, "RUnlock": true, "CompareAndDelete": true, "Clear": true}
+
 // packages whose receiver types are all per-document values (AST nodes, readers): only package-level writes count
 var nodePkgs = map[string]bool{"ast": true, "east": true, "text": true}
 
@@ -186,6 +190,17 @@ func collectWrites(p *pkgFiles, pkg string) []writeSite {
 					sites = append(sites, writeSite{pkg, "<package>", fn, path, inOnce, line})
 				}
 			}
+			recordCall := func(x ast.Expr, method string, inOnce bool) {
+				root, path := lvalueRoot(x)
+				if root == nil {
+					return
+				}
+				if recv != "" && root.Name == recv && path != recv && !perCallTypes[typ] && !nodePkgs[pkg] {
+					sites = append(sites, writeSite{pkg, typ, fn, strings.TrimPrefix(path, recv+".") + "." + method + "()", inOnce, 0})
+				} else if gvars[root.Name] && !locals[root.Name] && root.Name != recv {
+					sites = append(sites, writeSite{pkg, "<package>", fn, path + "." + method + "()", inOnce, 0})
+				}
+			}
 			var walk func(n ast.Node, inOnce bool)
 			walk = func(n ast.Node, inOnce bool) {
 				ast.Inspect(n, func(m ast.Node) bool {
@@ -209,6 +224,12 @@ func collectWrites(p *pkgFiles, pkg string) []writeSite {
 						if id, ok := x.Fun.(*ast.Ident); ok && id.Name == "delete" && len(x.Args) == 2 {
 							record(x.Args[0], inOnce)
 						}
+						// mutating method calls on a field / package variable (sync.Map.Store, atomic.Pointer.Store, sync.Pool.Put, ...)
+						if se, ok := x.Fun.(*ast.SelectorExpr); ok && mutatingMethods[se.Sel.Name] {
+							if root, path := lvalueRoot(se.X); root != nil && path != root.Name || (root != nil && gvars[root.Name] && !locals[root.Name]) {
+								recordCall(se.X, se.Sel.Name, inOnce)
+							}
+						}
 					case *ast.AssignStmt:
 						if x.Tok != token.DEFINE {
 							for _, l := range x.Lhs {
@@ -227,13 +248,92 @@ func collectWrites(p *pkgFiles, pkg string) []writeSite {
 	return sites
 }
 
+type syncDecl struct{ pkg, owner, name, typ string }
+
+func syncTypeName(t ast.Expr) string {
+	switch x := t.(type) {
+	case *ast.SelectorExpr:
+		if id, ok := x.X.(*ast.Ident); ok && (id.Name == "sync" || id.Name == "atomic") {
+			return id.Name + "." + x.Sel.Name
+		}
+	case *ast.IndexExpr: // atomic.Pointer[T]
+		return syncTypeName(x.X)
+	case *ast.StarExpr:
+		return syncTypeName(x.X)
+	}
+	return ""
+}
+
+func collectSyncDecls(p *pkgFiles, pkg string) []syncDecl {
+	var r []syncDecl
+	var fnames []string
+	for n := range p.files {
+		fnames = append(fnames, n)
+	}
+	sort.Strings(fnames)
+	for _, fname := range fnames {
+		for _, d := range p.files[fname].Decls {
+			gd, ok := d.(*ast.GenDecl)
+			if !ok {
+				continue
+			}
+			for _, sp := range gd.Specs {
+				switch x := sp.(type) {
+				case *ast.TypeSpec:
+					st, ok := x.Type.(*ast.StructType)
+					if !ok {
+						continue
+					}
+					for _, fl := range st.Fields.List {
+						if tn := syncTypeName(fl.Type); tn != "" {
+							for _, nm := range fl.Names {
+								r = append(r, syncDecl{pkg, x.Name.Name, nm.Name, tn})
+							}
+							if len(fl.Names) == 0 {
+								r = append(r, syncDecl{pkg, x.Name.Name, "<embedded>", tn})
+							}
+						}
+					}
+				case *ast.ValueSpec:
+					if gd.Tok != token.VAR {
+						continue
+					}
+					tn := ""
+					if x.Type != nil {
+						tn = syncTypeName(x.Type)
+					}
+					for _, v := range x.Values {
+						if cl, ok := v.(*ast.CompositeLit); ok && tn == "" {
+							tn = syncTypeName(cl.Type)
+						}
+						if ue, ok := v.(*ast.UnaryExpr); ok && tn == "" {
+							if cl, ok := ue.X.(*ast.CompositeLit); ok {
+								tn = syncTypeName(cl.Type)
+							}
+						}
+					}
+					if tn != "" {
+						for _, nm := range x.Names {
+							r = append(r, syncDecl{pkg, "<package>", nm.Name, tn})
+						}
+					}
+				}
+			}
+		}
+	}
+	return r
+}
+
 func genStateFacts(repo, out string) {
 	var sites []writeSite
+	var syncs []syncDecl
 	for _, d := range []struct{ dir, pkg string }{
 		{".", "goldmark"}, {"parser", "parser"}, {"renderer", "renderer"}, {"renderer/html", "html"},
 		{"extension", "extension"}, {"util", "util"}, {"ast", "ast"}, {"text", "text"}, {"extension/ast", "east"},
 	} {
-		sites = append(sites, collectWrites(parseDir(filepath.Join(repo, d.dir)), d.pkg)...)
+		pf := parseDir(filepath.Join(repo, d.dir))
+		sites = append(sites, collectWrites(pf, d.pkg)...)
+		syncs = append(syncs, collectSyncDecls(pf, d.pkg)...)
 	}
 	var sb strings.Builder
 	sb.WriteString(header)
@@ -247,6 +347,15 @@ func genStateFacts(repo, out string) {
 			sep = ""
 		}
 		fmt.Fprintf(&sb, "  ⟨%q, %q, %q, %q, %v⟩%s\n", s.pkg, s.typ, s.fn, s.target, s.inOnce, sep)
+	}
+	sb.WriteString("]\n\n/-- every struct field / package variable whose type comes from sync or sync/atomic: (package, owner, name, type) -/\n")
+	sb.WriteString("def syncDecls : List (String × String × String × String) := [\n")
+	for i, s := range syncs {
+		sep := ","
+		if i == len(syncs)-1 {
+			sep = ""
+		}
+		fmt.Fprintf(&sb, "  (%q, %q, %q, %q)%s\n", s.pkg, s.owner, s.name, s.typ, sep)
 	}
 	sb.WriteString("]\n\nend GM.Gen\n")
 	writeIfChanged(filepath.Join(out, "StateFacts.lean"), []byte(sb.String()))
